@@ -18,7 +18,7 @@ META = {
     ),
     "C02": dict(
         technique="escape analysis of the per-entry loop, exhaustive 128-row decision table extracted from loop-body paths, sibling writer/reader agreement, stdout taint, static import closure; custom rules",
-        text="Shows that nothing a junk entry contains can abort or veto verification: the per-entry loop has an empty escape set for an unconstrained key/value, its decision function equals the specification on all 128 atom valuations, the only post-loop rejection is len(counted) < threshold exactly, signer and verifier agree on serializer/field/codec/filing, printed text is ASCII-safe, and every module chain is in the static import closure.",
+        text="Shows that nothing a junk entry contains can abort or veto verification: the per-entry loop has an empty escape set for an unconstrained key/value, its decision function counts every entry the specification counts and skips or counts the others without leaving the loop (all 128 atom valuations), the only post-loop rejection is len(counted) < threshold exactly, signer and verifier agree on serializer/field/codec/filing, printed text is ASCII-safe, and every module chain is in the static import closure.",
         note="Not decided: that an arbitrary conforming signer's bytes verify and that the shipped fixtures verify (crypto library, needs execution). An extra pre-loop rejection that can never coincide with sufficient signatures would still be reported.",
         ref="5 C02",
     ),
@@ -42,13 +42,13 @@ META = {
     ),
     "C04": dict(
         technique="reduction to statically decided facts (C03 step rule + effect/statelessness analysis + writer/loader pairing) with a paper induction over histories",
-        text="The history property is reduced to four facts, each decided on the current tree by static analysis: the per-step rule of C03; statelessness of the library (no module/class/function state written, no caches, no mutable defaults, no ambient reads reachable from verifiers); verifiers never write their arguments (the trusted root in particular); files are written as canonserialize(x) and read back by plain json.load. The induction over offer sequences on top of these facts is a written argument in DESIGN.md, not executed.",
+        text="The history property is reduced to four facts, each decided on the current tree by static analysis: the per-step rule of C03; statelessness of the library (no module/class/function state written, no caches, no mutable defaults, no ambient reads reachable from verifiers); verifiers never write their arguments (the trusted root in particular); files are written as canonserialize(x) and read back by plain json.load; any loop of the repository around verify_root pairs each offer with the root accepted just before it. The induction over offer sequences on top of these facts is a written argument in DESIGN.md, not executed.",
         note="The induction is a paper argument; equality of the reloaded JSON value is a json-library fact (assumed).",
         ref="5 C04",
     ),
     "C08": dict(
         technique="event/term matching on walked paths of writer, loader and in-place signers (effective open modes, json.load hooks, store targets); custom rules",
-        text="Structural half of persistence: the writer writes exactly canonserialize(metadata) once, in binary mode, to the named file, serializing before opening; the loader returns json.load(open(fname,'rb')) with default hooks, unmodified; every in-place signer stores only under ['signatures'] of the document and writes back the value it loaded to the path it loaded it from.",
+        text="Structural half of persistence: the writer writes exactly canonserialize(metadata) once, in binary mode, to the named file, serializing before opening; the loader returns json.load(open(fname,'rb')) with default hooks, unmodified; every in-place signer stores only under ['signatures'] of the document and writes back the value it loaded to the path it loaded it from; callers of the in-memory signers do not drop the signatures already present.",
         note="Partial: json.load(canonserialize(x)) == x and the resulting invariance of verdicts are properties of CPython's json module given these facts; not decided here.",
         ref="5 C08",
     ),
@@ -60,7 +60,7 @@ META = {
     ),
     "C17": dict(
         technique="path enumeration of the CLI handlers with call-event/fact matching, argparse registry extraction, entry-point statement dataflow (value of cli() must reach sys.exit), call-graph cone for signing handlers",
-        text="Every path of the verify-metadata handler that can yield exit status 0 follows a successful verify_root / verify_delegation call chosen by the untrusted file's declared type, with the files bound as the parser declares them; all other returns are non-zero constants; cli() passes the handler's value through; each of the three entry points feeds it to sys.exit; signing handlers return a zero status only after the signer returned.",
+        text="Every path of the verify-metadata handler that can yield exit status 0 follows a successful verify_root / verify_delegation call chosen by the untrusted file's declared type, with the files bound as the parser declares them; all other returns are non-zero constants; cli() passes the handler's value through; each of the three entry points feeds it to sys.exit; signing handlers return a zero status only after the signer returned; module-level names the handlers read are bound before the __main__ block of cli.py runs.",
         note="The installer-generated console-script wrapper is assumed to be sys.exit(cli()) (A7; cross-checked against /venv/bin in the thorough tier). What is printed is not checked, only the status.",
         ref="5 C17",
     ),
@@ -78,7 +78,7 @@ META = {
     ),
     "C09": dict(
         technique="term-level matching of the wrap return value, the single store of sign_signable (target, value, ordering after the grammar check), interprocedural write set, sibling writer/reader agreement, exact accept gate",
-        text="wrap_as_signable returns a fresh two-field dict with a deep copy under a JSON-type gate; sign_signable performs exactly one store, under hex(raw public key of the given private key), of {'signature': hex(sign(canonserialize(signable['signed'])))}, after the entry passed the grammar, and writes nothing else (so other signers' entries are untouched and order cannot matter); signer and verifier agree on serializer/field/codec/filing; the accept gate is exactly len(counted) >= threshold.",
+        text="wrap_as_signable returns a fresh two-field dict with a deep copy under a JSON-type gate; sign_signable performs exactly one store, under hex(raw public key of the given private key), of {'signature': hex(sign(canonserialize(signable['signed'])))}, after the entry passed the grammar, and writes nothing else (so other signers' entries are untouched and order cannot matter); it fails only through validation of its arguments or a step of the signing pipeline; signer and verifier agree on serializer/field/codec/filing; the accept gate is exactly len(counted) >= threshold.",
         note="Partial: determinism/idempotence of Ed25519 and 'a changed payload stops verifying' are crypto-library facts (A2).",
         ref="5 C09",
     ),
@@ -114,7 +114,7 @@ META = {
     ),
     "C19": dict(
         technique="expanded-term equality for the key helper class methods under each concrete class binding (hex/unhex and Raw/Raw <-> from_*_bytes pairing), key-file write/read stream pairing, equivalence clause facts",
-        text="Decides the codec pairing that losslessness rests on: to_hex = hex(to_bytes), from_hex = from_bytes(unhex(x)) behind the 64-hex gate, to_bytes = Raw/Raw serialization paired with from_public_bytes / from_private_bytes, bytes-like gate; key files are written and read with matching suffixes, roles and binary mode; is_equivalent_to is the symmetric byte comparison between same-type keys; checkformat_key is the isinstance gate.",
+        text="Decides the codec pairing that losslessness rests on: to_hex = hex(to_bytes), from_hex = from_bytes(unhex(x)) behind the 64-hex gate, to_bytes = Raw/Raw serialization paired with from_public_bytes / from_private_bytes, bytes-like gate; key files are written and read with matching suffixes, roles and binary mode; is_equivalent_to is the symmetric byte comparison between same-type keys; checkformat_key is the isinstance gate; the signer files its entry under the public key derived from the key that signs.",
         note="Partial: equality with RFC 8032 vectors and value-level round trips are properties of the cryptography library (A2) - no static argument in reach.",
         ref="5 C19",
     ),
